@@ -6,7 +6,7 @@ Does not decide timing."""
 import re
 from .. import cfg, lib
 from .. import facts
-from ..facts import AnalysisBroken
+from ..facts import AnalysisBroken, strip_tmpl
 
 T = "Pistache::Tcp::Transport::"
 WRITERS = {T + "sendRawBuffer", T + "sendFile"}
@@ -228,6 +228,44 @@ def run(ck):
               "stops because one peer's FIFO is long (head-of-line blocking) leaves the other peers' responses in the mailbox until the "
               "stalled peer reads again", key_pred=lambda k: k.startswith("drain-loop:Pistache::Tcp::Transport::"), min_instances=3)
 
+    # every readable event of a peer is read (until would-block): the call of handleIncoming in onReady is guarded by what the event says
+    # (isReadable, the tag, isPeerFd) and by nothing about the connection's queues -- input that is deliberately left in the socket keeps a
+    # level-triggered registration firing and is never reported again by an edge-triggered one
+    g14 = lib.single(prog, T + "onReady")
+    hin = [e for e in g14.events("call") if (e.get("callee") or "") == T + "handleIncoming"]
+    ck.require(hin, "Transport::onReady does not call handleIncoming")
+    odd_guards = []
+    for e in hin:
+        for b in g14.blocks.values():
+            if not b.term or len(b.succs) != 2:
+                continue
+            if any(b.succs[k_] is not None and cfg.edge_dominates(g14, b.id, k_, e) for k_ in (0, 1)):
+                refs_ = [r_ for r_ in (b.term.get("refs") or []) if r_.startswith(("c:", "f:"))]
+                for r_ in refs_:
+                    nm_ = strip_tmpl(r_[2:])
+                    if nm_.startswith("Pistache::Aio::FdSet::Entry::") or nm_.startswith("Pistache::Polling::Tag") or nm_.startswith("std::") or \
+                            nm_ in (T + "isPeerFd", T + "isTimerFd", T + "peers", T + "timers") or nm_.endswith("::tag") or "PollableQueue" in nm_ or "NotifyFd" in nm_:
+                        continue
+                    # a predicate of the transport: fine unless it looks at the pending writes
+                    looks = any(g_.blocks and any(("f:" + T + "toWrite") in (x_.get("refs") or []) or strip_tmpl(x_.get("f") or "") == T + "toWrite" for x_ in g_.events())
+                                for g_ in prog.by_base.get(nm_, [])) or nm_ == T + "toWrite"
+                    if looks:
+                        odd_guards.append((b, nm_))
+    # (a predicate introduced since was expanded into onReady: its call event is still there, marked `inlined`)
+    dom14 = cfg.dominators(g14)
+    for e in hin:
+        for c_ in g14.events("call"):
+            nm_ = strip_tmpl(c_.get("callee") or "")
+            if c_.get("inlined") and nm_.startswith(T) and cfg.ev_dominates(dom14, c_, e):
+                if any(g_.blocks and any(strip_tmpl(x_.get("f") or "") == T + "toWrite" for x_ in g_.events("member")) for g_ in prog.by_base.get(nm_, [])):
+                    odd_guards.append((g14.blocks[c_.block], nm_))
+    read_always = not odd_guards
+    ck.rule("C07-R15", "B purity of a guard",
+            "Transport::onReady reads from a peer whenever the event says readable: no test on the way to handleIncoming looks at the "
+            "connection's pending writes (back-pressure by not reading leaves input in the socket: a level-triggered registration then "
+            "fires on every epoll_wait -- the worker spins -- and an edge-triggered one never reports it again)", 1)
+    impure14 = []
+
     # ---------------- R14: the caller's trigger mode is honoured ----------------
     ck.rule("C07-R14", "B guard of a store (the condition mentions the mode only)",
             "the transport registers and re-arms peer sockets edge-triggered and reads / drains accordingly (until would-block): every Epoll "
@@ -282,10 +320,25 @@ def run(ck):
                     on_edge = True
                 if r_ is not None and r_[1] == "==" and "Mode::Level" in ((r_[2].get("t") or "") + (r_[0].get("t") or "") + str(b.term.get("rconst"))):
                     on_edge = False
-            ck.ob("C07-R14", "%s/EPOLLET-iff-edge-mode" % wf.base.replace("Pistache::Polling::", ""), pure and on_edge, e.loc, wf,
+            if not (pure and on_edge):
+                impure14.append(wf.name)
+            if not (pure and on_edge) and read_always:
+                ck.note("C07-R14: %s does not derive EPOLLET from the caller's mode alone; harmless as long as every readable event is read (C07-R15 holds)" % wf.name)
+            ck.ob("C07-R14", "%s/EPOLLET-iff-edge-mode" % wf.base.replace("Pistache::Polling::", ""), (pure and on_edge) or read_always, e.loc, wf,
                   "EPOLLET is set on the mode == Edge edge, whose condition mentions the mode only" if pure and on_edge else
+                  "EPOLLET does not follow the caller's mode alone, but every readable event is read (C07-R15): no input is left to re-fire" if read_always else
                   "whether %s registers edge-triggered does not depend on the caller's mode alone (guards: %s): some registrations the "
                   "transport asks for as edge-triggered are made level-triggered" % (wf.name, [b.term.get("cond") for b, _k in guards]))
+
+    # (leaving input unread on purpose is sound with edge-triggered registrations -- the re-arm after the drain reports it again -- and
+    # harmful only together with a registration that is not edge-triggered: the two clauses are judged together)
+    if not read_always and not impure14:
+        ck.note("C07-R15: onReady skips the read of a readable peer depending on %s; harmless while every registration follows the caller's edge mode (C07-R14 holds)" % odd_guards[0][1])
+    ck.ob("C07-R15", "onReady/readable-is-always-read", read_always or not impure14, (hin[0].loc), g14,
+          "handleIncoming is guarded by the event and the tag only" if read_always else
+          ("the read is conditional, but every registration is edge-triggered as asked (the re-arm reports the input again)" if not impure14 else
+           "the read of a readable peer is skipped depending on %s, which looks at the pending writes, and %s does not register edge-triggered as asked: "
+           "the unread input fires on every epoll_wait" % (odd_guards[0][1].replace("Pistache::Tcp::", ""), impure14[0])), structural=True)
 
     # ---------------- R9: an idle worker sleeps in epoll_wait ----------------
     ck.rule("C07-R9", "dataflow identity",
